@@ -255,7 +255,10 @@ def check_buffer(acc, docs, nontrivial=True, sample=False, label=None):
     if kind != "ok":
         case = {"kind": "buffer", "hex": x.hex(), "docs": [list(d) for d in docs], "detail": detail}
         if (kind == "reserialised_bytes_differ" or kind.startswith("exception_serialise")) and c14_attributable(docs):
-            outcome = "attributed_to_C14"
+            # a number inside the document is written wrongly by the primitive writer itself (C14's subject): the document does not
+            # re-serialise to its bytes all the same, so it is reported here too, under its own signature
+            acc.violation(kind + "[a_number_is_written_wrongly_by_the_primitive_writer]", case, detail)
+            outcome = "number_writer"
         else:
             preds = sorted(predicates(docs))
             if len(docs) > 1:
